@@ -115,6 +115,9 @@ func lwDefs() []lwDef {
 		{name: "silt-shallow-roots-deep-rooters", soil: "silt20", gw: 99, et: 3, start: s1, days: 800, initW: 0.5, initN: 30, rootDepth: 4,
 			rot:  []proj.CropEntry{{Crop: "WW", Sow: "2001-09-25", Harvest: "2002-08-05", Rex: 50}, {Crop: "ZR", Sow: "2003-04-05", Harvest: "2003-10-20", Rex: 0, Variety: "chrnew"}, {Crop: "WW", Sow: "2003-11-01", Harvest: "2004-08-01"}},
 			fert: []proj.Fert{{Date: "2002-03-10", Amount: 120, Kind: "KAS"}, {Date: "2003-04-01", Amount: 140, Kind: "KAS"}}},
+		{name: "loamy-sand-over-gravel-beet", soil: "gravel12", gw: 99, et: 3, start: s2, days: 620, initW: 0.6, initN: 40, rootDepth: 4,
+			rot:  []proj.CropEntry{{Crop: "ZR", Sow: "2002-04-05", Harvest: "2002-10-25", Rex: 0, Variety: "chrnew"}, {Crop: "ZR", Sow: "2003-04-10", Harvest: "2003-10-20", Rex: 0, Variety: "chrnew"}, {Crop: "WW", Sow: "2003-11-01", Harvest: "2004-08-01"}},
+			fert: []proj.Fert{{Date: "2002-04-01", Amount: 120, Kind: "KAS"}, {Date: "2003-04-05", Amount: 120, Kind: "KAS"}}},
 		{name: "loam-alfalfa-uncut-mulched", soil: "loam12", gw: 99, et: 3, start: s1, days: 700, initW: 0.6, initN: 30,
 			rot: []proj.CropEntry{{Crop: "AA", Sow: "2001-09-01", Harvest: "2002-10-15", Rex: 0}, {Crop: "GR", Sow: "2002-10-20", Harvest: "2003-06-30", Rex: 0}, {Crop: "WW", Sow: "2003-10-01", Harvest: "2004-08-01"}}},
 		{name: "north-60-winter-wheat", soil: "loam12", gw: 99, et: 3, start: s1, days: 700, initW: 0.6, initN: 30, lat: 61,
